@@ -84,8 +84,43 @@ anchor("wb_msm_g1", "c", WB, "msm", ("assign", "g1", 0), inline=[])
 anchor("wb_msm_g2", "c", WB, "msm", ("assign", "g2", 0), inline=[])
 anchor("wb_msm_eq", "shape shape0", WB, "msm.f", ("assign", "eq", 0), inline=[])
 
+anchor("wfw_loc", "n wa wb wc", "qats/stats/gumbel.py", "Gumbel.fit_from_weibull_parameters", ("assign", "loc", 0), inline=[])
+anchor("wfw_scale", "n wb wc", "qats/stats/gumbel.py", "Gumbel.fit_from_weibull_parameters", ("assign", "scale", 0), inline=[])
+
 GU = "qats/stats/gumbel.py"
+anchor("gu_kurt", "", GU, "Gumbel.kurt", ("return", 0))
+anchor("gu_mean", "loc scale", GU, "Gumbel.mean", ("return", 0))
+anchor("gu_median", "loc scale", GU, "Gumbel.median", ("return", 0))
+anchor("gu_mode", "loc", GU, "Gumbel.mode", ("return", 0))
+anchor("gu_std", "scale", GU, "Gumbel.std", ("return", 0))
+anchor("gu_skew", "", GU, "Gumbel.skew", ("return", 0))
+anchor("gu_cdf", "loc scale x", GU, "Gumbel.cdf", ("assign", "p", 0), inline=["z"])
+anchor("gu_pdf", "loc scale x", GU, "Gumbel.pdf", ("assign", "p", 0), inline=["z"])
+anchor("gu_invcdf", "loc p scale", GU, "Gumbel.invcdf", ("assign", "x[z]", 0), inline=[])
+anchor("gu_msm_b", "sd", GU, "msm", ("assign", "b", 0), inline=[], rename={"np.std(x, ddof=1)": "sd"})
+anchor("gu_msm_a", "b mean", GU, "msm", ("assign", "a", 0), inline=[], rename={"x.mean()": "mean"})
+anchor("gu_pwm_b", "m0 m1", GU, "pwm", ("assign", "b", 0), inline=[])
+anchor("gu_pwm_a", "b m0", GU, "pwm", ("assign", "a", 0), inline=[])
+
 GM = "qats/stats/gumbelmin.py"
+anchor("gm_kurt", "", GM, "GumbelMin.kurt", ("assign", "k", 0), inline=[])
+anchor("gm_mean", "location scale", GM, "GumbelMin.mean", ("assign", "m", 0), inline=[])
+anchor("gm_median", "location scale", GM, "GumbelMin.median", ("assign", "m", 0), inline=[])
+anchor("gm_mode", "location", GM, "GumbelMin.mode", ("assign", "m", 0), inline=[])
+anchor("gm_std", "scale", GM, "GumbelMin.std", ("assign", "s", 0), inline=[])
+anchor("gm_skew", "", GM, "GumbelMin.skew", ("assign", "s", 0), inline=[])
+anchor("gm_cdf", "location scale x", GM, "GumbelMin.cdf", ("assign", "p", 0), inline=["z"])
+anchor("gm_pdf", "location scale x", GM, "GumbelMin.pdf", ("assign", "p", 0), inline=["z"])
+anchor("gm_invcdf", "location p scale", GM, "GumbelMin.invcdf", ("assign", "x[z]", 0), inline=[])
+anchor("gm_msm_b", "sd", GM, "msm", ("assign", "b", 0), inline=[], rename={"np.std(x, ddof=1)": "sd"})
+anchor("gm_msm_a", "b mean", GM, "msm", ("assign", "a", 0), inline=[], rename={"x.mean()": "mean"})
+
+EM = "qats/stats/empirical.py"
+anchor("ecdf_mean", "i n", EM, "empirical_cdf", ("assign", "f", 0), inline=[])
+anchor("ecdf_median", "i n", EM, "empirical_cdf", ("assign", "f", 1), inline=[])
+anchor("ecdf_symmetrical", "i n", EM, "empirical_cdf", ("assign", "f", 2), inline=[])
+anchor("ecdf_beard", "i n", EM, "empirical_cdf", ("assign", "f", 3), inline=[])
+anchor("ecdf_gringorten", "i n", EM, "empirical_cdf", ("assign", "f", 4), inline=[])
 CO = "qats/fatigue/corrections.py"
 anchor("gh_corrected", "means ranges uts", CO, "goodman_haigh", ("assign", "corrected_ranges", 0), inline=[])
 MO = "qats/motions.py"
@@ -273,6 +308,10 @@ class Tr:
             self.depth -= 1
 
     def _tr(self, e):
+        if not isinstance(e, (ast.Constant, ast.Name)):
+            txt0 = norm(ast.unparse(e))
+            if txt0 in self.a["rename"]:
+                return self.param(txt0)
         if isinstance(e, ast.Constant):
             if isinstance(e.value, bool) or not isinstance(e.value, (int, float)):
                 raise TranslateError("unsupported constant %r" % (e.value,))
@@ -329,11 +368,41 @@ class Tr:
                 return "(%s * ((TranscOps.pi : α) / (180.0 : α)))" % self.tr(e.args[0])
             if fn == "float" and len(e.args) == 1:
                 return self.tr(e.args[0])
+            if fn == "zetac" and len(e.args) == 1:
+                return "(TranscOps.zetac %s)" % self.tr(e.args[0])
+            if not e.args and isinstance(e.func, ast.Name):
+                body = const_function(self.a["file"], e.func.id)
+                if body is not None:
+                    saved = self.env
+                    self.env = {}
+                    try:
+                        return self.tr(body)
+                    finally:
+                        self.env = saved
             raise TranslateError("unsupported call " + fn)
         raise TranslateError("unsupported expression " + type(e).__name__)
 
 
 _cache = {}
+
+
+def const_function(file, name, depth=0):
+    """body expression of a module-level function `def name(): return <expr>` (following `from .mod import x as name`)"""
+    if depth > 3:
+        return None
+    tree = parse(file)
+    for node in tree.body:
+        if isinstance(node, ast.FunctionDef) and node.name == name and not node.args.args:
+            rets = [s for s in node.body if isinstance(s, ast.Return)]
+            if len(rets) == 1 and rets[0].value is not None:
+                return rets[0].value
+        if isinstance(node, ast.ImportFrom) and node.level == 1 and node.module:
+            for al in node.names:
+                if (al.asname or al.name) == name:
+                    other = os.path.join(os.path.dirname(file), node.module + ".py")
+                    if os.path.exists(os.path.join(core.REPO, other)):
+                        return const_function(other, al.name, depth + 1)
+    return None
 
 
 def parse(file):
